@@ -820,7 +820,7 @@ def _le_facts(pc):
     return outl
 
 
-def chunk_cap_failures(ctx, B, name, depth=0, seen=None):
+def chunk_cap_failures(ctx, B, name, depth=0, seen=None, known=1):
     """alternatives of the usize / ResolvedChunkSize value returned by `name`, for a source of KNOWN length, that have no
     upper bound in terms of the data length, the thread budget or a constant.  [(term, why, line)]"""
     F = ctx.facts
@@ -830,7 +830,7 @@ def chunk_cap_failures(ctx, B, name, depth=0, seen=None):
     seen.add(name)
     b = F.bodies[name]
     lens = [b.local_name(l) for l in b.arg_locals() if b.locals[l]['ty'].replace(' ', '') in ('std::option::Option<usize>', 'Option<usize>')]
-    seeds = {'discr': {t_str(P(nm)): 1 for nm in lens}, 'key': ('known-len', name)} if lens else None
+    seeds = {'discr': {t_str(P(nm)): known for nm in lens}, 'key': ('known-len', known, name)} if lens else None
     r = ctx.opa0.run(name, seeds=seeds) if seeds else ctx.run0(name)
     edges = [(term, pc) for (_, _), (term, pc) in r.ret_edges.items()] or [(term, pc) for (_, term, pc) in r.returns]
     # match arms are joined before the return block, which loses the facts of each arm: for a small loop-free body every
@@ -855,7 +855,7 @@ def chunk_cap_failures(ctx, B, name, depth=0, seen=None):
             allb = set(b.blocks)
             for pth in paths:
                 sd = dict(seeds or {})
-                sd['key'] = ('known-len-path', name, tuple(pth))
+                sd['key'] = ('known-len-path', known, name, tuple(pth))
                 rr = ctx.opa0.run(name, seeds=sd, avoid=allb - set(pth))
                 for (_, _), (term, pc) in rr.ret_edges.items():
                     edges.append((term, pc))
@@ -879,7 +879,7 @@ def chunk_cap_failures(ctx, B, name, depth=0, seen=None):
                 if vr.ret == P('self'):
                     return check(pay[2][0], pc)
             if cb.d.get('ret_ty') in ('usize',) or RESOLVED in cb.d.get('ret_ty', ''):
-                sub = chunk_cap_failures(ctx, B, pay[1], depth + 1, seen)
+                sub = chunk_cap_failures(ctx, B, pay[1], depth + 1, seen, known)
                 if not sub:
                     return
                 fails.extend(sub)
@@ -935,5 +935,38 @@ def c15_chunkcap(ctx):
                      'the position counter of the concurrent iterator advances by the chunk size on every pull and wraps around for chunk sizes near '
                      'usize::MAX / threads - elements are then delivered more than once (wrong results) or the addition overflows (panic)'
                      % (t_str(pay)[:100], where_), F.bodies[ct[1]].where())
+    out.floor('resolutions', n, 1 if not ctx.fixture else 0)
+    return out
+
+
+@rule('C15-CHUNKCAP-U', 'for a source of unknown length the resolved chunk size (= the slots every buffered pull allocates) is bounded')
+def c15_chunkcap_unknown(ctx):
+    out = RuleOut('C15-CHUNKCAP-U')
+    F = ctx.facts
+    B = Bounds(ctx)
+    B.strict = True
+    prove_invariants(ctx)
+    new = F.one('core::runner::Runner::new')
+    r = ctx.run0(new.name)
+    ci = F.field_index(RUNNER, 'chunk_size')
+    n = 0
+    for ret in [a for a in alternatives(r.ret) if a[0] == 'variant' and a[1] == RUNNER]:
+        ct = ret[3][ci]
+        if not (ct[0] == 'call' and ct[1] in F.bodies):
+            continue
+        n += 1
+        # sources of unknown length: the dependency's buffered iterator allocates `chunk` slots up front, so an unbounded chunk size
+        # is an unbounded allocation (capacity overflow / abort) - there is no data length to bound it by
+        fails_u = chunk_cap_failures(ctx, B, ct[1], known=0)
+        seen = set()
+        for (pay, where_, _) in fails_u:
+            if (pay, where_) in seen:
+                continue
+            seen.add((pay, where_))
+            k2 = 'C15-CHUNKCAP-U/%s/%s' % (where_.replace('in ', ''), t_str(pay)[:60])
+            out.inst(k2, False, t_str(pay)[:80])
+            out.fail(k2, 'for a source of unknown length the resolved chunk size is %s (%s), without any bound: every buffered pull of the concurrent '
+                         'iterator allocates that many slots up front, so a huge ChunkSize makes the computation panic with "capacity overflow" '
+                         '(or abort) although num_threads(1) computes the result' % (t_str(pay)[:100], where_), F.bodies[ct[1]].where())
     out.floor('resolutions', n, 1 if not ctx.fixture else 0)
     return out
